@@ -43,6 +43,12 @@ theorem c01_exactly_once (evs : List Ev) (he : ∀ e ∈ evs, Shaped I e) (x : S
   simp only [ids, hdrained, List.map_nil, List.count_nil, Nat.zero_add, handedBack, hnostop] at h
   omega
 
+/-- nothing is reported back that was not accepted: the queue never gets an acknowledgement for a seed it did not hand out -/
+theorem c01_reported_was_accepted (evs : List Ev) (he : ∀ e ∈ evs, Shaped I e) (x : String)
+    (h : 0 < reported (run P I {} evs) x) : x ∈ (run P I {} evs).accepted := by
+  have hc := (inv_run P I fin_ok sets_ok evs {} (inv_init I) he).conserve x
+  exact List.count_pos_iff.1 (by omega)
+
 /-- **Only after the whole tree is done.** Whenever a seed is acknowledged as finished, no node of its tree
 is still waiting to be fetched or post-processed (Fresh, PreProcessed, Archived, …): every URL of the tree
 has been fetched, skipped or has failed for good. -/
